@@ -17,7 +17,8 @@ from .c07 import MARKER
 
 ID = "C08"
 LEVEL = "fault_enumeration"
-RULE = ("cases: generated notebook triples written to files (no duplicate ids), with placeholders (base = /dev/null or an empty file, local "
+RULE = ("cases: generated notebook triples written to files (no duplicate ids), with placeholders (base = /dev/null or an empty file; one input readable "
+        "but not a notebook - truncated, a git-lfs pointer, text conflict markers - which must end in a failure status with the output untouched; local "
         "and/or remote = /dev/null), a strategy configuration, an entry point (nbmerge --out, nbmerge to stdout, git merge driver `merge %O %A "
         "%B %L %P`) and arbitrary previous bytes at the output; plus one large case with 256 conflicting cells. For EVERY case the clean run "
         "and the WHOLE single-fault set is executed in child processes (real console entry: sys.exit(main(argv))): fault points = "
@@ -45,7 +46,8 @@ def budget(tier):
 @st.composite
 def scenario(draw):
     base, local, remote, shape = draw(N.triple(max_cells=3))
-    ph = draw(st.sampled_from(["none", "none", "none", "base_null", "base_empty", "local_null", "remote_null", "both_null"]))
+    ph = draw(st.sampled_from(["none", "none", "none", "none", "base_null", "base_empty", "local_null", "remote_null", "both_null",
+                                "base_corrupt", "remote_corrupt", "local_corrupt"]))
     entry = draw(st.sampled_from(["nbmerge_out", "nbmerge_out", "driver", "driver", "nbmerge_stdout"]))
     args = draw(S.strategy_args(renderers=["git"]))
     if args["merge"] == "mergetool":
@@ -129,6 +131,15 @@ class Files:
                 self.paths[name] = "/dev/null"
             elif name == "base" and ph == "base_empty":
                 open(p, "w").close()
+                self.paths[name] = p
+            elif ph == name + "_corrupt":
+                # readable but not a notebook: cut off part-way, a git-lfs pointer, or text with conflict markers
+                text = nbformat.writes(to_nb(case[name]))
+                kind = len(text) % 3
+                with open(p, "w", encoding="utf8") as f:
+                    f.write(text[:max(1, len(text) // 2)] if kind == 0 else
+                            "version https://git-lfs.github.com/spec/v1\noid sha256:4d7a214614ab2935c943f9e0ff69d22eadbb8f32b1258daaa5e2ca24d17e2393\nsize 12345\n" if kind == 1 else
+                            "<<<<<<< HEAD\n" + text + "=======\n" + text + ">>>>>>> other\n")
                 self.paths[name] = p
             else:
                 nbformat.write(to_nb(case[name]), p)
@@ -304,6 +315,19 @@ def run_case(case):
         if entry == "driver" and files.paths["local"] == "/dev/null":
             # git never calls the driver with a missing %A; use the command instead
             entry = case["entry"] = "nbmerge_out"
+        if case["placeholder"].endswith("_corrupt"):
+            # reading an input is a step that fails here: no success status, output location untouched
+            r = run_child(case, files, {})
+            out.count("child_runs")
+            out.count("runs_with_unreadable_input")
+            detail = {"entry": entry, "placeholder": case["placeholder"], "args": case["args"], "status": r["status"]}
+            if r["status"] == 0:
+                out.fail("fault_never_reports_success", "exit_status_zero_with_unreadable_input", case["placeholder"], detail=detail)
+            if entry != "nbmerge_stdout" and r["before"] != r["after"]:
+                out.fail("failure_before_write_leaves_output_untouched", "output_changed", "unreadable input " + case["placeholder"], detail=detail)
+            out.nontrivial = True
+            out.ntkey = {k: case[k] for k in ("base", "local", "remote", "placeholder", "entry", "args")}
+            return out
         try:
             lib, lib_conflict = library_result(case, files)
         except Exception:
